@@ -41,6 +41,9 @@ def replay_state(ctx, prop, famname, st, check=None, annotate=None, instr_annota
     pre = st.get('_pre')
     if last == 'MAP' and cls == 'type' and pre and pre[0][1][0] in ('list', 'map') and len(pre[0][1][1]) == 0:
         sig += ':empty-collection'
+    elif last == 'DIP' and cls == 'type' and pre and len(prog[-1][2]) == 1 and prog[-1][2][0][0] == 'MAP' and len(pre) > prog[-1][1] \
+            and pre[prog[-1][1]][1][0] in ('list', 'map') and len(pre[prog[-1][1]][1][1]) == 0:
+        sig = '%s:replay:MAP:type:empty-collection' % prop       # the same MAP over an empty collection, executed below the top of the stack
     ctx.mismatch(sig, 'family %s program %s on %s: %s' % (famname, json.dumps(to_json(prog)), json.dumps(to_json(init)), text),
                  {'family': famname, 'init': to_json(init), 'env': to_json(env), 'hist': to_json(prog), 'status': st['status'],
                   'stack': to_json(st['stack']), 'failv': to_json(st['failv'])})
